@@ -658,7 +658,87 @@ def d_balanced(site):
     return ('D-balanced', 'the field is only incremented / decremented by constants, and in every body each decrement is dominated by an increment of at least the same amount: it is >= %d here' % k)
 
 
-DISCHARGERS = [d_guard, d_total, d_lock, d_range, d_len_eq, d_vetted, d_counter, d_balanced]
+def d_index_succ(site):
+    """i + k (small constant) where i is an item of a Range<usize> or the index of enumerate():
+    i < end <= usize::MAX / i < number of items, so i + 1 cannot overflow"""
+    rv = _assert_binop(site)
+    if rv is None or rv['op'] != 'AddWithOverflow' or rv.get('aty') != 'usize':
+        return None
+    k = op_const_int(rv['b'])
+    if k is None or not (0 <= k <= 1):
+        return None
+    body = site.body
+    o = single_origin(trace_operand(body, rv['a']))
+    if o is None or o.kind != 'callres':
+        return None
+    rd = o.data.rdef or ''
+    if rd.endswith('for std::ops::Range<A>>::next') and o.proj == (('dc', 'Some'), ('f', 0)):
+        return ('D-range', 'successor of an item of a Range<usize>: the item is < end <= usize::MAX')
+    if rd.startswith('<std::iter::Enumerate<I> as std::iter::Iterator>::next') and o.proj == (('dc', 'Some'), ('f', 0), ('f', 0)):
+        return ('D-range', 'successor of an enumerate() index: the index is < the number of items of an in-memory collection')
+    return None
+
+
+def _registry_config_adts(facts):
+    """ADT names stored as values of a `HashMap<String, X>` registry static (e.g. the infix operator
+    configuration record)"""
+    out = set()
+    for s in facts.statics:
+        m = re.search(r'HashMap<std::string::String, ([\w:]+)>', s['ty'])
+        if m and m.group(1) in facts.adt_by_name:
+            out.add(m.group(1))
+    return out
+
+
+def _is_precedence(body, op, depth=0):
+    """the operand is a registered precedence (field 0 of a registry configuration record),
+    possibly doubled, possibly handed in as a parameter of a private helper"""
+    if depth > 3:
+        return False
+    cfg = _registry_config_adts(body.facts)
+    origins = trace_operand(body, op)
+    if not origins:
+        return False
+    for o in origins:
+        if o.kind == 'callres' and o.proj and o.proj[-1] == ('f', 0) and any(c in o.data.term['dest']['ty'] for c in cfg):
+            continue
+        if o.kind == 'param' and o.proj == (('f', 0),) and any(c in body.locals[o.data]['ty'] for c in cfg):
+            continue
+        if o.kind == 'binop' and o.data[2]['op'] in ('MulWithOverflow', 'Mul') and op_const_int(o.data[2]['b']) == 2 and o.proj in ((('f', 0),), ()):
+            if _is_precedence(body, o.data[2]['a'], depth + 1):
+                continue
+            return False
+        if o.kind == 'param' and not o.proj and not body.is_closure and body.locals[o.data]['ty'] in ('i32', 'i64'):
+            # every call site passes a precedence
+            import analysis
+            prog = getattr(body.facts, '_prog', None)
+            sites = []
+            for b2 in body.facts.bodies:
+                for c in b2.live_calls:
+                    if c.ruid == body.id:
+                        sites.append(c)
+            if sites and all(o.data - 1 < len(c.args) and _is_precedence(c.body, c.args[o.data - 1], depth + 1) for c in sites):
+                continue
+            return False
+        return False
+    return True
+
+
+def d_bp(site):
+    """binding-power arithmetic: 2*p and 2*p +- 1 on a registered precedence p; precedences are
+    positive and <= 10^9 by the contract of register_infix_op (C08), so all three fit i32"""
+    rv = _assert_binop(site)
+    if rv is None or rv.get('aty') not in ('i32', 'i64'):
+        return None
+    k = op_const_int(rv['b'])
+    if rv['op'] == 'MulWithOverflow' and k == 2 and _is_precedence(site.body, rv['a']):
+        return ('D-vetted', 'left binding power = 2 * registered precedence; precedences are <= 10^9 by the contract of register_infix_op, so 2p < i32::MAX')
+    if rv['op'] in ('AddWithOverflow', 'SubWithOverflow') and k == 1 and _is_precedence(site.body, rv['a']):
+        return ('D-vetted', 'right binding power = left binding power +- 1 on a registered precedence (positive, <= 10^9 by contract)')
+    return None
+
+
+DISCHARGERS = [d_guard, d_total, d_lock, d_range, d_len_eq, d_bp, d_vetted, d_counter, d_balanced, d_index_succ]
 
 
 def evaluate(bodies, extra_dischargers=(), rule='PANIC'):
